@@ -59,8 +59,8 @@ CONSTRAINT Constraint
 def _optimizer_space(tier):
     """(maxlen, start, alpha) triples explored exhaustively by TLC."""
     if tier == 'quick':
-        return [(2, 1, 1), (3, 3, 2), (2, 2, 3)]
-    return [(3, 1, 1), (4, 3, 2), (3, 2, 3), (3, 2, 1)]
+        return [(2, 1, 1), (3, 3, 2), (2, 2, 3), (2, 4, 4), (4, 3, 5)]
+    return [(3, 1, 1), (4, 3, 2), (3, 2, 3), (3, 2, 1), (3, 4, 4), (5, 3, 5)]
 
 
 def _start_sig(start_id):
@@ -136,7 +136,7 @@ def _mutseq_check(prop, tier, judge_name):
     report.notes.append('Mergeable bound to the code: %s' % mergeable)
     recs = _explore_optimizer(report, tier, mergeable)
     rng = random.Random(seed() * 1000003 + 11)
-    limit = 1800 if tier == 'quick' else 40000
+    limit = 2400 if tier == 'quick' else 50000
     chosen = _pick(recs, limit, rng)
     jobs = []
     for i, (rec, start_sig) in enumerate(chosen):
@@ -193,10 +193,11 @@ def _mutseq_check(prop, tier, judge_name):
             for clause in rec['viol']:
                 if clause in ('RebuildsNotWorse', 'OneRebuildPerMergeableRun'):
                     continue
-                if clause in ('OptSameData', 'TwoPassSameData') and (
-                        'opt-exec-failed' in [c for c, _ in fails] or
-                        'pipeline-exec-failed' in [c for c, _ in fails]):
-                    continue
+                if clause in ('OptSameData', 'TwoPassSameData') and any(
+                        c in ('opt-exec-failed', 'pipeline-exec-failed', 'opt-schema-differs',
+                              'pipeline-schema-differs', 'opt-sig-differs', 'pipeline-sig-differs',
+                              'opt-rejected', 'pipeline-rejected') for c, _ in fails):
+                    continue        # rows are only compared when the schemas agree
                 if clause not in seen and obs.get('ref', {}).get('ok'):
                     report.spec_drift('Optimizer.tla predicts %s for %s but the code satisfies it'
                                       % (clause, label))
@@ -525,7 +526,7 @@ def _judge_retry(report, rr, prev, label, ri, histories, oracles):
               'error': s['error_msg']}
     # tables an earlier unit of the failed run committed, with no stored signature
     lag = sorted(a for a in code if code[a] >= 0 and rr['pre']['tab'][a] >= 0
-                 and rr['pre']['stored'][a] == -1)
+                 and rr['pre']['stored'][a] != rr['pre']['tab'][a])
     fp_extra = {'earlier_unit_committed': bool(lag)}
     if s['outcome'] != 'ok':
         report.fail(dict({'class': 'retry-failed'}, **fp_extra), detail)
@@ -837,7 +838,9 @@ def c17(tier, replay=None):
                        [e['ev'] for e in _signals_of(runrecs[-1]) if e['ev'] not in ('stmt', 'book')]
                        if runrecs and 'events' in runrecs[-1] else None}, limit=5)
     _trace_rejections(report, 'C17', chosen, results)
-    report.coverage['distinct_nontrivial'] = len(nontrivial)
+    fired, planned = _c17_every_statement(report, tier)
+    report.notes.append('all-statement fault enumeration: %d faults fired of %d planned' % (fired, planned))
+    report.coverage['distinct_nontrivial'] = len(nontrivial) + fired
     report.coverage['exhaustive'] = len(chosen) == ngen
     report.coverage['rule'] = (
         'TLC explores Evolver.tla with faults; %d of %d histories replayed; every run recorded '
@@ -911,6 +914,14 @@ def c08(tier, replay=None):
                                     dict(detail, app=e['app']))
             if s['outcome'] == 'ok':
                 rapps = {h.app: a for a, h in histories.items()}
+                for e in evs:
+                    if e['ev'] == 'applied_evolution' and e['app'] in rapps:
+                        for lab in e['labels']:
+                            n = sum(1 for r in post['evo']
+                                    if r[0] == rapps[e['app']] and 'e%d' % r[1] == lab)
+                            if n != 1:
+                                report.fail({'class': 'executed-but-not-recorded-once', 'count': n},
+                                            dict(detail, evolution=[e['app'], lab]))
                 for app in fresh_apps:
                     a = rapps.get(app)
                     if a is None:
@@ -1065,3 +1076,115 @@ INVARIANT ExecuteOnlyIfReaches
 
 
 REGISTRY.update({'C12': c12})
+
+
+def _signal_verdicts(report, res, detail, where):
+    """Direct C17 checks on one raw runner result (used by the all-statement
+    fault enumeration, which has no abstract trace)."""
+    names = []
+    seen_constructed = False
+    for e in res['events']:
+        if e['ev'] == 'constructed':
+            seen_constructed = True
+            names = []
+            continue
+        names.append(e['ev'])
+    n_evolving = names.count('evolving')
+    terminal = names.count('evolved') + names.count('evolving_failed')
+    ok = res['outcome'] == 'ok'
+    d = dict(detail, signals=[n for n in names if n not in ('stmt', 'book', 'commit', 'rollback',
+                                                           'savepoint_rollback', 'stmt_fail')],
+             outcome=res['outcome'], error=(res.get('error') or {}).get('type'),
+             msg=((res.get('error') or {}).get('msg') or '')[:200])
+    if n_evolving > 1:
+        report.fail({'class': 'evolving-twice', 'where': where}, d)
+    if n_evolving == 1 and terminal != 1:
+        report.fail({'class': 'terminal-signal-count', 'count': terminal, 'where': where}, d)
+    if n_evolving == 0 and terminal:
+        report.fail({'class': 'terminal-without-evolving', 'where': where}, d)
+    if ('evolved' in names) != (ok and n_evolving == 1):
+        report.fail({'class': 'evolved-vs-return', 'evolved': 'evolved' in names,
+                     'returned_ok': ok, 'where': where}, d)
+    lock = res.get('lock')
+    if lock and lock[0] != lock[1]:
+        report.fail({'class': 'evolve-lock-not-restored', 'where': where}, dict(d, lock=lock))
+    if ok:
+        for a, b in (('applying_evolution', 'applied_evolution'),
+                     ('creating_models', 'created_models'),
+                     ('applying_migration', 'applied_migration')):
+            if names.count(a) != names.count(b):
+                report.fail({'class': 'unpaired-signal-on-success', 'signal': a, 'where': where}, d)
+
+
+def _c17_every_statement(report, tier):
+    """A failure injected at EVERY statement (of any kind) issued inside
+    evolve(): fresh install (with contenttypes' migrations), an upgrade, and a
+    run with nothing to do."""
+    from concurrent.futures import ThreadPoolExecutor
+    from .djproj import Project
+    from .engines import runs
+    histories = runs.make_histories(2)
+    scenarios = [
+        ('fresh install of two apps', [('a1', 2), ('a2', 1)], None),
+        ('upgrade a1 0->2 with a2 new', [('a1', 2), ('a2', 1)], [('a1', 0)]),
+        ('nothing to do', [('a1', 1)], [('a1', 1)]),
+    ]
+    if tier == 'quick':
+        step = 3
+    else:
+        step = 1
+    jobs = []
+    for name, final, first in scenarios:
+        p = Project([h.app for h in histories.values()], tag='c17dry')
+        try:
+            p.set_installed([])
+            if first:
+                for a, v in first:
+                    histories[a].deploy(p, v)
+                p.set_installed([histories[a].app for a, v in first])
+                p.run({'action': 'evolve_api'})
+            for a, v in final:
+                histories[a].deploy(p, v)
+            p.set_installed([histories[a].app for a, v in final])
+            dry = p.run({'action': 'evolve_api'})
+            n = dry.get('all_statements', 0)
+        finally:
+            p.destroy()
+        for k in range(1, n + 1, step):
+            jobs.append((name, final, first, k, n))
+
+    def one(job):
+        name, final, first, k, n = job
+        p = Project([h.app for h in histories.values()], tag='c17k')
+        try:
+            p.set_installed([])
+            if first:
+                for a, v in first:
+                    histories[a].deploy(p, v)
+                p.set_installed([histories[a].app for a, v in first])
+                p.run({'action': 'evolve_api'})
+            for a, v in final:
+                histories[a].deploy(p, v)
+            p.set_installed([histories[a].app for a, v in final])
+            res = p.run({'action': 'evolve_api' if k % 2 else 'command', 'name': 'evolve',
+                         'options': {'execute': True, 'interactive': False, 'verbosity': 0},
+                         'fault': {'at': k, 'scope': 'all'}, 'project': False,
+                         'want_signature': False})
+            return job, res
+        finally:
+            p.destroy()
+    count = 0
+    with ThreadPoolExecutor(12) as ex:
+        for (name, final, first, k, n), res in ex.map(one, jobs):
+            report.coverage['evaluations'] += 1
+            if res.get('outcome') == 'runner-crash':
+                report.notes.append('runner crash at %s k=%d: %s' % (name, k, res.get('stderr', '')[-200:]))
+                continue
+            fired = res.get('fault_fired')
+            if not fired:
+                continue
+            count += 1
+            _signal_verdicts(report, res, {'scenario': name, 'statement_index': k, 'of': n,
+                                           'failing_sql': fired['sql'][:160],
+                                           'kind': fired.get('kind')}, 'every-statement')
+    return count, len(jobs)
